@@ -75,16 +75,41 @@ func ruleC04R5(c *Ctx) {
 	itT := c.Named(pkgIndex, "postingsIterator")
 	// pop functions: read the pool and return an iterator
 	pops := map[*ssa.Function]bool{}
-	for _, fn := range c.FuncsIn(pkgIndex) {
-		if fn.Signature.Results().Len() == 1 && namedOf(fn.Signature.Results().At(0).Type()) == itT {
-			reads := false
+	iterResult := func(fn *ssa.Function) int {
+		for i := 0; i < fn.Signature.Results().Len(); i++ {
+			if namedOf(fn.Signature.Results().At(i).Type()) == itT {
+				return i
+			}
+		}
+		return -1
+	}
+	for changed := true; changed; {
+		changed = false
+		for _, fn := range c.FuncsIn(pkgIndex) {
+			if pops[fn] || iterResult(fn) < 0 || fn.Parent() != nil {
+				continue
+			}
+			isPop := false
 			eachInstr(fn, func(in ssa.Instruction) {
 				if fa, ok := in.(*ssa.FieldAddr); ok && fieldVar(fa) == pool {
-					reads = true
+					isPop = true // takes it from the pool itself
+				}
+				// or hands on what a pop function returned, without touching it
+				if r, ok := in.(*ssa.Return); ok {
+					for _, rv := range r.Results {
+						v := rv
+						if ext, ok := v.(*ssa.Extract); ok {
+							v = ext.Tuple
+						}
+						if call, ok := v.(*ssa.Call); ok && pops[call.Common().StaticCallee()] && len(storesThrough(fn, rv)) == 0 {
+							isPop = true
+						}
+					}
 				}
 			})
-			if reads {
+			if isPop {
 				pops[fn] = true
+				changed = true
 			}
 		}
 	}
@@ -119,6 +144,14 @@ func ruleC04R5(c *Ctx) {
 			if !ok || !pops[ci.Common().StaticCallee()] {
 				return
 			}
+			// the iterator value: the call itself, or the component of its result tuple
+			var itv ssa.Value = ci
+			if ci.Common().Signature().Results().Len() > 1 {
+				itv = resultValue2(ci, iterResult(ci.Common().StaticCallee()))
+				if itv == nil {
+					return
+				}
+			}
 			n++
 			key := fmt.Sprintf("reuse site #%d of a pooled postings iterator in %s resets its cursor", n, FuncName(fn))
 			var names []string
@@ -146,7 +179,7 @@ func ruleC04R5(c *Ctx) {
 					st.Flags = 0
 				}
 				if s2, ok := x.(*ssa.Store); ok {
-					if fa, ok := s2.Addr.(*ssa.FieldAddr); ok && (fa.X == ssa.Value(ci) || st.Canon(fa.X) == ssa.Value(ci)) {
+					if fa, ok := s2.Addr.(*ssa.FieldAddr); ok && (fa.X == itv || st.Canon(fa.X) == itv) {
 						st.Flags |= bit[fieldVar(fa)]
 					}
 				}
@@ -155,7 +188,7 @@ func ruleC04R5(c *Ctx) {
 			ex.OnReturn = func(r *ssa.Return, st *PState) {
 				returnsIt := false
 				for _, rv := range r.Results {
-					if st.Canon(rv) == ssa.Value(ci) || dependsOn(rv, func(y ssa.Value) bool { return y == ssa.Value(ci) }) {
+					if st.Canon(rv) == itv || dependsOn(rv, func(y ssa.Value) bool { return y == itv }) {
 						returnsIt = true
 					}
 				}
@@ -1004,5 +1037,544 @@ func ruleC16R7(c *Ctx) {
 		}
 		c.Check(bad == nil, "list built by "+FuncName(fn)+" is owned by its caller", c.Pos(fn.Pos()), "grown from nil or make in the call",
 			"the returned list is built in the reused buffer '"+name+"': a nested aggregation that asks the same match for another list overwrites it while the outer aggregation is still iterating (counts and sums of multi-valued fields come out wrong)")
+	}
+}
+
+// storesThrough: the stores of fn into fields of the object v points to.
+func storesThrough(fn *ssa.Function, v ssa.Value) []*ssa.Store {
+	var rv []*ssa.Store
+	eachInstr(fn, func(in ssa.Instruction) {
+		if st, ok := in.(*ssa.Store); ok {
+			if fa, ok := st.Addr.(*ssa.FieldAddr); ok && fa.X == v {
+				rv = append(rv, st)
+			}
+		}
+	})
+	return rv
+}
+
+func init() {
+	registerRule(&RuleInfo{ID: "C02.R6", Title: "the root that is persisted and the acks released after it are taken in one critical section", Floor: 1, Run: ruleC02R6,
+		Covers: "where the persister goroutine reads Writer.root for the snapshot it persists and where it reads the pending acks it releases afterwards"})
+}
+
+// ---- C02.R6 ---------------------------------------------------------------------------------
+
+// C02.R3 checks each function that touches the ack fields on its own. The protocol also has
+// a cross-function side: the snapshot handed to the persisting callee and the acks that are
+// released once it succeeded must have been read by ONE function (whose single critical
+// section C02.R3 then checks). A root taken by a getter in one section and the acks detached
+// by a helper in another lets a batch slip in between: its ack is released for a snapshot
+// that does not contain it.
+func ruleC02R6(c *Ctx) {
+	a := c.Idx()
+	m := newDurabilityModel(c.Program)
+	roots, _ := persisterRoots(c.Program)
+	if len(roots) != 1 {
+		c.Undecided("persister goroutine root", "-", "no unique persister goroutine")
+		return
+	}
+	root := roots[0]
+	// functions in which a given field is loaded, as far as that load can flow into v
+	readers := func(v ssa.Value, fields ...*types.Var) map[*ssa.Function]bool {
+		rv := map[*ssa.Function]bool{}
+		dependsOn(v, func(y ssa.Value) bool {
+			if fa, ok := y.(*ssa.FieldAddr); ok {
+				for _, f := range fields {
+					if fieldVar(fa) == f {
+						rv[fa.Parent()] = true
+					}
+				}
+			}
+			return false
+		})
+		return rv
+	}
+	rootReaders := map[*ssa.Function]bool{}
+	ackReaders := map[*ssa.Function]bool{}
+	nPersist, nAck := 0, 0
+	eachInstr(root, func(in ssa.Instruction) {
+		if ci, ok := in.(*ssa.Call); ok {
+			if callee := ci.Common().StaticCallee(); callee != nil && c.InRepo(callee) && callee.Blocks != nil && m.guarantees(callee) {
+				for _, arg := range ci.Common().Args {
+					if namedOf(arg.Type()) == a.Snapshot {
+						nPersist++
+						for f := range readers(arg, a.WRoot) {
+							rootReaders[f] = true
+						}
+					}
+				}
+			}
+		}
+	})
+	for _, s := range ackSites(c.Program) {
+		if s.fn != root && enclosingTop(s.fn) != root {
+			continue
+		}
+		var v ssa.Value
+		switch x := s.in.(type) {
+		case *ssa.Send:
+			v = x.Chan
+		case ssa.CallInstruction:
+			if builtinName(x.Common()) == "close" {
+				v = x.Common().Args[0]
+			} else {
+				v = x.Common().Value
+			}
+		}
+		if v == nil {
+			continue
+		}
+		nAck++
+		for f := range readers(v, a.WRootPersisted, a.WPersistedCallbacks) {
+			ackReaders[f] = true
+		}
+	}
+	key := "root and pending acks of a persist round are read by one function of " + FuncName(root)
+	if nPersist == 0 || nAck == 0 || len(rootReaders) == 0 || len(ackReaders) == 0 {
+		c.Undecided(key, c.Pos(root.Pos()), fmt.Sprintf("could not locate the reads (persist calls with a snapshot: %d, ack sites: %d, readers of root: %d, readers of the acks: %d)", nPersist, nAck, len(rootReaders), len(ackReaders)))
+		return
+	}
+	var common, rn, an []string
+	for f := range rootReaders {
+		rn = append(rn, FuncName(f))
+		if ackReaders[f] {
+			common = append(common, FuncName(f))
+		}
+	}
+	for f := range ackReaders {
+		an = append(an, FuncName(f))
+	}
+	sort.Strings(common)
+	sort.Strings(rn)
+	sort.Strings(an)
+	onlyCommon := len(common) > 0 && len(common) == len(rootReaders) && len(common) == len(ackReaders)
+	c.Check(onlyCommon, key, c.Pos(root.Pos()), "both are read in "+strings.Join(common, ", ")+" (whose single critical section C02.R3 checks)",
+		fmt.Sprintf("the snapshot that is persisted is read from Writer.root in %v, the acks released after the persist are read in %v: they are not taken together, so a batch introduced in between is acknowledged for a snapshot that does not contain it", rn, an))
+}
+
+func init() {
+	registerRule(&RuleInfo{ID: "C02.R7", Title: "nothing that can fail follows the commit of a persist round", Floor: 1, Run: ruleC02R7,
+		Covers: "every function of package index that calls DeletionPolicy.Commit and has an error result"})
+}
+
+// ---- C02.R7 ---------------------------------------------------------------------------------
+
+// A persist round that reports an error is retried with the same epoch. Commit is not
+// idempotent (a second Commit of the epoch makes it deletable while it is the newest on
+// disk). Therefore Commit must be the point of no return: on every path that passed it, the
+// function returns a nil error.
+func ruleC02R7(c *Ctx) {
+	a := c.Idx()
+	n := 0
+	for _, fn := range c.FuncsIn(pkgIndex) {
+		ei := fnErrIdx(fn)
+		if ei < 0 || fn.Parent() != nil {
+			continue
+		}
+		var commits []ssa.Instruction
+		eachInstr(fn, func(in ssa.Instruction) {
+			if cc := callOf(in); cc != nil && callsIfaceMethod(cc, a.DPCommit) {
+				commits = append(commits, in)
+			}
+		})
+		if len(commits) == 0 {
+			continue
+		}
+		n++
+		key := "commit is the last fallible step in " + FuncName(fn)
+		const fCommitted uint64 = 1
+		var problems []string
+		ex := &Explorer{Fn: fn}
+		ex.OnInstr = func(in ssa.Instruction, st *PState) bool {
+			for _, cm := range commits {
+				if in == cm {
+					st.Flags |= fCommitted
+				}
+			}
+			return true
+		}
+		ex.OnEdge = func(from, to *ssa.BasicBlock, st *PState) {
+			// a loop that commits one item per round (loading all snapshots at open): each round is its own
+			if h := enclosingLoopHeader(commits[0].Block()); h != nil && to == h && naturalLoop(h)[from] {
+				st.Flags &^= fCommitted
+			}
+		}
+		ex.OnReturn = func(r *ssa.Return, st *PState) {
+			if st.Flags&fCommitted != 0 && ei < len(r.Results) && st.Eval(r.Results[ei]) != TriNo {
+				problems = append(problems, "a path that already committed the snapshot returns a possibly non-nil error at "+c.Pos(r.Pos())+": the round is retried and commits the same epoch again (the deletion policy then counts it twice and removes it while it is the newest)")
+			}
+		}
+		ex.Run()
+		if ex.Exceeded {
+			c.Undecided(key, c.Pos(fn.Pos()), "path exploration did not finish")
+			continue
+		}
+		c.Check(len(problems) == 0, key, c.Pos(commits[0].Pos()), "every path through Commit ends in a nil error", uniqJoin(problems))
+	}
+}
+
+func init() {
+	registerRule(&RuleInfo{ID: "C06.R7", Title: "doc-number translations are keyed by the segment they were computed for", Floor: 1, Run: ruleC06R7,
+		Covers: "every map update that fills segmentMerge.oldNewDocNums"})
+}
+
+// ---- C06.R7 ---------------------------------------------------------------------------------
+
+// merge() returns one old->new doc-number table per input segment, in input order. The i-th
+// table must be stored under the id of the i-th input. The id must be read, at the time of
+// the update, from the list the inputs were taken from (task.Segments[i].ID(), ss.id of
+// snapshot.segment[idx]): an id list copied earlier can be in another order than the inputs
+// (the planner sorts by size, a later step may re-sort), and a deletion that races with the
+// merge is then translated with the wrong segment's table.
+func ruleC06R7(c *Ctx) {
+	fMap := c.Field(pkgIndex, "segmentMerge", "oldNewDocNums")
+	n := 0
+	for _, fn := range c.FuncsIn(pkgIndex) {
+		eachInstr(fn, func(in ssa.Instruction) {
+			mu, ok := in.(*ssa.MapUpdate)
+			if !ok {
+				return
+			}
+			// the map is (or becomes) the oldNewDocNums of a segmentMerge
+			isTarget := dependsOnField(mu.Map, fMap)
+			if !isTarget {
+				eachInstr(fn, func(g ssa.Instruction) {
+					if st, ok := g.(*ssa.Store); ok {
+						if fa, ok := st.Addr.(*ssa.FieldAddr); ok && fieldVar(fa) == fMap && (st.Val == mu.Map || sameBase(st.Val, mu.Map) || dependsOn(st.Val, func(y ssa.Value) bool { return y == mu.Map })) {
+							isTarget = true
+						}
+					}
+				})
+			}
+			if !isTarget {
+				return
+			}
+			n++
+			key := fmt.Sprintf("translation table #%d stored in %s is keyed by its own segment", n, FuncName(fn))
+			viaCopy := dependsOn(mu.Key, func(y ssa.Value) bool {
+				u, ok := isLoad(y)
+				if !ok {
+					return false
+				}
+				ia, ok := u.X.(*ssa.IndexAddr)
+				if !ok {
+					return false
+				}
+				// an element of a list of plain ids built in this function
+				_, isMk := ia.X.(*ssa.MakeSlice)
+				if !isMk {
+					if l2, ok := isLoad(ia.X); ok {
+						if al, ok := l2.X.(*ssa.Alloc); ok && al.Referrers() != nil {
+							for _, r := range *al.Referrers() {
+								if st, ok := r.(*ssa.Store); ok && st.Addr == ssa.Value(al) {
+									if _, mk := st.Val.(*ssa.MakeSlice); mk {
+										isMk = true
+									}
+								}
+							}
+						}
+					}
+				}
+				if !isMk {
+					return false
+				}
+				b, ok := u.Type().Underlying().(*types.Basic)
+				return ok && b.Info()&types.IsInteger != 0
+			})
+			c.Check(!viaCopy, key, c.Pos(mu.Pos()), "the key is read from the input list at the time of the update",
+				"the key comes from a list of ids copied earlier in this function, not from the list the merge inputs are taken from: when that list is reordered in between, each table is stored under another segment's id")
+		})
+	}
+}
+
+func init() {
+	registerRule(&RuleInfo{ID: "C12.R6", Title: "a snapshot is accepted only if the decoder consumed the whole body", Floor: 1, Run: ruleC12R6,
+		Covers: "the byte count returned by Snapshot.ReadFrom in every snapshot loader"})
+}
+
+// ---- C12.R6 ---------------------------------------------------------------------------------
+
+// The decoder stops after the last record it was promised; the checksum is computed over
+// what the buffered reader happened to pull. Bytes between the last record and the checksum
+// trailer are neither decoded nor necessarily hashed, so a file with such a tail is a byte
+// string that is not an encoding of the state it is accepted as. The loader must compare
+// the number of bytes ReadFrom decoded with Len()-crcWidth and return a snapshot only when
+// they are equal.
+func ruleC12R6(c *Ctx) {
+	a := c.Idx()
+	readFrom := c.Method(pkgIndex, "Snapshot", "ReadFrom")
+	crcWidth := constIntOf(c.Program, pkgIndex, "crcWidth")
+	for _, fn := range snapshotLoaders(c.Program) {
+		var readCall *ssa.Call
+		var data ssa.Value
+		eachInstr(fn, func(in ssa.Instruction) {
+			if ci, ok := in.(*ssa.Call); ok {
+				if ci.Common().StaticCallee() == readFrom {
+					readCall = ci
+				}
+				if a.isDirCall(ci.Common(), a.DirLoad, a.KindSnapshot) {
+					data = resultValue(ci, 0)
+				}
+			}
+		})
+		key := "decoded length equals the body length in " + FuncName(fn)
+		if readCall == nil || data == nil {
+			c.Undecided(key, c.Pos(fn.Pos()), "the loader has no ReadFrom call on loaded data")
+			continue
+		}
+		count := resultValue2(readCall, 0)
+		var conds []*ssa.BinOp
+		if count != nil {
+			eachInstr(fn, func(in ssa.Instruction) {
+				b, ok := in.(*ssa.BinOp)
+				if !ok || b.Op != token.NEQ && b.Op != token.EQL {
+					return
+				}
+				isCount := func(v ssa.Value) bool { return v == count || dependsOn(v, func(y ssa.Value) bool { return y == count }) }
+				isBody := func(v ssa.Value) bool {
+					return dependsOn(v, func(y ssa.Value) bool {
+						bo, ok := y.(*ssa.BinOp)
+						if !ok || bo.Op != token.SUB {
+							return false
+						}
+						k, okc := constInt(bo.Y)
+						return okc && k == crcWidth && isDataLen(bo.X, data)
+					})
+				}
+				if isCount(b.X) && isBody(b.Y) || isCount(b.Y) && isBody(b.X) {
+					conds = append(conds, b)
+				}
+			})
+		}
+		if len(conds) == 0 {
+			c.Violate(key, c.Pos(readCall.Pos()), "the number of bytes the decoder consumed is never compared with Len()-crcWidth: a file whose records end before the checksum trailer (undecoded, possibly unhashed bytes in between) is accepted")
+			continue
+		}
+		var problems []string
+		ex := &Explorer{Fn: fn, Keep: map[ssa.Value]bool{}}
+		for _, b := range conds {
+			ex.Keep[b] = true
+		}
+		ex.OnReturn = func(r *ssa.Return, st *PState) {
+			if len(r.Results) == 0 || st.Eval(r.Results[0]) == TriNo {
+				return
+			}
+			okPath := false
+			for _, b := range conds {
+				t := st.Eval(b)
+				if b.Op == token.NEQ && t == TriNo || b.Op == token.EQL && t == TriYes {
+					okPath = true
+				}
+			}
+			if !okPath {
+				problems = append(problems, "a snapshot is returned at "+c.Pos(r.Pos())+" on a path on which the decoded length was not found equal to the body length")
+			}
+		}
+		ex.Run()
+		if ex.Exceeded {
+			c.Undecided(key, c.Pos(readCall.Pos()), "path exploration did not finish")
+			continue
+		}
+		c.Check(len(problems) == 0, key, c.Pos(readCall.Pos()), "every return of a snapshot passed `decoded == Len()-crcWidth`", uniqJoin(problems))
+	}
+}
+
+func init() {
+	registerRule(&RuleInfo{ID: "C10.R4", Title: "the successor of a prefix-coded term is taken in the coder's digit width", Floor: 1, Run: ruleC10R4,
+		Covers: "the function that steps from one term to the next in termRange.Enumerate, against the digit mask of numeric.NewPrefixCodedInt64Prealloc"})
+}
+
+// ---- C10.R4 ---------------------------------------------------------------------------------
+
+// The coder writes 7-bit digits (`byte(bits & 0x7f)`). A range [start, end] of terms is
+// enumerated by repeatedly taking the successor of a term. A successor function that carries
+// at 0x100 instead of 0x80 walks through 128 byte values per digit that no term can contain:
+// a range that crosses k digit boundaries costs 256^k steps, so a query for two adjacent
+// values such as [4.999999999999999, 5] practically never returns. Writer and reader must
+// agree on the digit width: the successor function must compare the incremented byte with the
+// coder's mask (or mask+1).
+func ruleC10R4(c *Ctx) {
+	coder := c.Func(modPath+"/numeric", "NewPrefixCodedInt64Prealloc")
+	mask := int64(-1)
+	eachInstr(coder, func(in ssa.Instruction) {
+		if b, ok := in.(*ssa.BinOp); ok && b.Op == token.AND {
+			if k, okc := constInt(b.Y); okc && k > 0 && k < 255 {
+				mask = k
+			}
+		}
+	})
+	if mask < 0 {
+		c.Undecided("digit mask of the prefix coder", c.Pos(coder.Pos()), "no `bits & mask` found in the coder")
+		return
+	}
+	enum := c.Method(pkgSearcher, "termRange", "Enumerate")
+	n := 0
+	eachInstr(enum, func(in ssa.Instruction) {
+		ci, ok := in.(*ssa.Call)
+		if !ok {
+			return
+		}
+		succ := ci.Common().StaticCallee()
+		if succ == nil || succ.Blocks == nil || funcPkgPath(succ) != pkgSearcher {
+			return
+		}
+		// a successor function: []byte -> []byte that adds one to an element
+		incr := false
+		eachInstr(succ, func(g ssa.Instruction) {
+			if st, ok := g.(*ssa.Store); ok {
+				if _, isEl := st.Addr.(*ssa.IndexAddr); isEl {
+					if b, ok := st.Val.(*ssa.BinOp); ok && b.Op == token.ADD {
+						if k, okc := constInt(b.Y); okc && k == 1 {
+							incr = true
+						}
+					}
+				}
+			}
+		})
+		if !incr {
+			return
+		}
+		n++
+		usesWidth := false
+		eachInstr(succ, func(g ssa.Instruction) {
+			b, ok := g.(*ssa.BinOp)
+			if !ok {
+				return
+			}
+			for _, op := range []ssa.Value{b.X, b.Y} {
+				if k, okc := constInt(op); okc && (k == mask || k == mask+1) {
+					switch b.Op {
+					case token.LSS, token.LEQ, token.GTR, token.GEQ, token.EQL, token.NEQ, token.AND, token.AND_NOT:
+						usesWidth = true
+					}
+				}
+			}
+		})
+		c.Check(usesWidth, "successor of a term in termRange.Enumerate uses the coder's digit width", c.Pos(ci.Pos()),
+			fmt.Sprintf("%s carries at the coder's digit mask %#x", FuncName(succ), mask),
+			fmt.Sprintf("%s adds one to a byte of the term and carries only when the byte wraps to 0, while the coder (%s) writes %d-valued digits (mask %#x): every digit boundary inside a range costs %d useless steps, a narrow range crossing several boundaries never finishes", FuncName(succ), FuncName(coder), mask+1, mask, 255-mask))
+	})
+	if n == 0 {
+		c.Undecided("successor of a term in termRange.Enumerate", c.Pos(enum.Pos()), "no successor function found")
+	}
+}
+
+func init() {
+	registerRule(&RuleInfo{ID: "C04.R7", Title: "a postings iterator is not used after it was given back to the pool", Floor: 1, Run: ruleC04R7,
+		Covers: "every call that hands a postings iterator to Snapshot.fieldTFRs (directly or through Close) and what follows it on each path"})
+}
+
+// ---- C04.R7 ---------------------------------------------------------------------------------
+
+// Once an iterator sits in the snapshot's per-field pool the next PostingsIterator call pops
+// it and re-initialises it. An iterator that is recycled and then still used (or recycled a
+// second time at its final Close) is shared by two scans: the same scan repeated on one
+// unchanged Reader returns mixed postings. After a call that recycles x, x must not be
+// touched again on that path.
+func ruleC04R7(c *Ctx) {
+	pool := c.Field(pkgIndex, "Snapshot", "fieldTFRs")
+	itT := c.Named(pkgIndex, "postingsIterator")
+	// recyclers: functions that put parameter k into the pool, or pass their parameter k to a recycler
+	type rk struct {
+		fn *ssa.Function
+		k  int
+	}
+	recyc := map[*ssa.Function]int{}
+	for _, fn := range c.FuncsIn(pkgIndex) {
+		eachInstr(fn, func(in ssa.Instruction) {
+			mu, ok := in.(*ssa.MapUpdate)
+			if !ok || !dependsOnField(mu.Map, pool) {
+				return
+			}
+			for k, p := range fn.Params {
+				if namedOf(p.Type()) == itT && dependsOn(mu.Value, func(y ssa.Value) bool { return y == ssa.Value(p) }) {
+					recyc[fn] = k
+				}
+			}
+		})
+	}
+	for changed := true; changed; {
+		changed = false
+		for _, fn := range c.FuncsIn(pkgIndex) {
+			if _, done := recyc[fn]; done {
+				continue
+			}
+			eachInstr(fn, func(in ssa.Instruction) {
+				ci, ok := in.(*ssa.Call)
+				if !ok {
+					return
+				}
+				k, isR := recyc[ci.Common().StaticCallee()]
+				if !isR || k >= len(ci.Common().Args) {
+					return
+				}
+				for pk, p := range fn.Params {
+					if ci.Common().Args[k] == ssa.Value(p) {
+						// a pure wrapper: nothing of p is used after the call
+						recyc[fn] = pk
+						changed = true
+					}
+				}
+			})
+		}
+	}
+	n := 0
+	for _, fn := range c.FuncsIn(pkgIndex) {
+		eachInstr(fn, func(in ssa.Instruction) {
+			ci, ok := in.(*ssa.Call)
+			if !ok {
+				return
+			}
+			k, isR := recyc[ci.Common().StaticCallee()]
+			if !isR || k >= len(ci.Common().Args) {
+				return
+			}
+			x := ci.Common().Args[k]
+			n++
+			key := fmt.Sprintf("iterator recycled at call #%d in %s is not used afterwards", n, FuncName(fn))
+			var used []string
+			uses := func(g ssa.Instruction) bool {
+				for _, op := range g.Operands(nil) {
+					if *op == nil {
+						continue
+					}
+					if *op == x {
+						return true
+					}
+					if fa, ok := (*op).(*ssa.FieldAddr); ok && fa.X == x {
+						return true
+					}
+				}
+				return false
+			}
+			ex := &Explorer{Fn: fn}
+			ex.OnInstr = func(g ssa.Instruction, st *PState) bool {
+				if g == ssa.Instruction(ci) {
+					return true
+				}
+				switch g.(type) {
+				case *ssa.Return, *ssa.Jump, *ssa.If, *ssa.RunDefers:
+					if _, isRet := g.(*ssa.Return); !isRet {
+						return true
+					}
+				}
+				if _, isFA := g.(*ssa.FieldAddr); isFA {
+					return true // judged where the address is used
+				}
+				if uses(g) {
+					used = append(used, c.Pos(g.Pos()))
+					return false
+				}
+				return true
+			}
+			ex.RunAfter(ci, newPState())
+			if ex.Exceeded {
+				c.Undecided(key, c.Pos(ci.Pos()), "path exploration did not finish")
+				return
+			}
+			c.Check(len(used) == 0, key, c.Pos(ci.Pos()), "nothing touches the iterator after it went back to the pool",
+				"the iterator is used at "+uniqJoin(used)+" after it was put into the pool: the next PostingsIterator call on that field re-initialises the very object this scan continues with (and its final Close pools it a second time)")
+		})
 	}
 }
